@@ -46,7 +46,7 @@ def run(chk):
         inputs.append(gen.sub_collection(rng, pool, rng.randint(1, 14)))
     for _ in range(5 if not thorough else 40):
         inputs.append(gen.repertoire(rng, rng.choice([10, 30]), allow_empty=False))
-    for xs in inputs:
+    for i_in, xs in enumerate(inputs):
         k = rng.choice([1, 1, 2])
         engine = rng.choice(["symdel", "hash_based", "kdtree"]) if max(len(x) for x in xs) <= 6 or k == 1 else "symdel"
         variant = rng.choice(["plain", "plain", "max_returns", "two-collection-self"])
@@ -66,22 +66,26 @@ def run(chk):
         trip = [tuple(int(v) for v in t) for t in nb[1]]
         edges = [[t[0], t[1]] for t in trip]
         n = len(xs)
-        node_kind = rng.choice(["list", "series", "series-index", "tuples", "mixed", "ints"])
+        node_kind = rng.choice(["list", "series", "series-index", "tuples", "mixed", "ints", "repeating", "repeating"])
+        if 5 <= i_in < 12:
+            node_kind = ["list", "series", "series-index", "tuples", "mixed", "ints", "repeating"][i_in - 5]      # every kind in every run
         if node_kind == "tuples":          # one (CDR3A, CDR3B)-like pair per node
             labels = [(x, f"b{i % 3}") for i, x in enumerate(xs)]
         elif node_kind == "mixed":         # labels of several scalar types come back as they are
             labels = [i if i % 2 == 0 else f"s{i}" for i in range(n)]
         elif node_kind == "ints":
             labels = [100 + i for i in range(n)]
+        elif node_kind == "repeating":     # labels taken from ANOTHER column (V gene, epitope, sample id): equal labels on unrelated rows
+            labels = [f"TRBV{(i * 7) % 3}" for i in range(n)]
         else:
             labels = list(xs)
-        nodes = labels if node_kind in ("list", "tuples", "mixed", "ints") else (pd.Series(xs) if node_kind == "series" else pd.Series(xs, index=[f"n{i}" for i in range(n)]))
+        nodes = labels if node_kind in ("list", "tuples", "mixed", "ints", "repeating") else (pd.Series(xs) if node_kind == "series" else pd.Series(xs, index=[f"n{i}" for i in range(n)]))
         meta = {"xs": xs, "k": k, "engine": engine, "nodes": node_kind, "n_edges": len(edges)}
         ops.append({"op": "graph_clustering_cc", "n": n, "edges": edges})
         real = core.call_real(lambda: cl.graph_clustering(trip, nodes, "cc"))
         checks.append(("cc", meta, real, edges, labels))
         for method in ("fastgreedy", "multilevel", "leiden"):
-            if not edges:
+            if not edges or node_kind == "repeating":      # (rows are matched to positions by label below: needs distinct labels)
                 continue
             kw = {"objective_function": "modularity"} if method == "leiden" else {}
             realm = core.call_real(lambda: cl.graph_clustering(trip, nodes, method, **kw))
@@ -179,6 +183,14 @@ def run(chk):
         t = rng.choice([1, 2, 3])
         lk = dict(method=method, optimal_ordering=rng.random() < 0.5)
         ck = dict(t=t, criterion="distance") if not (it_h < 4 and it_h % 2) else dict(t=2, criterion="maxclust")
+        if it_h in (6, 7, 8):
+            # every run: sequences of ONE length that are frame shifts of each other (Levenshtein 2, many mismatching columns)
+            fs = "CASSLGQGAYEQY"
+            xs = [[fs, fs[1:] + "F", "W" + fs[:-1], fs[:5] + "A" + fs[6:], fs[2:] + "FF"],
+                  ["ACDA", "CDAA", "AACD", "ACDC"], ["ACACAC", "CACACA", "ACACAD", "DCACAC", "ACACAC"]][it_h - 6]
+            method, t = ("single", "average", "complete")[it_h - 6], 2
+            lk = dict(method=method)
+            ck = dict(t=t, criterion="distance")
         if it_h in (4, 5):
             # every run: single linkage cut at a small distance on groups that lie FAR apart (merge heights well above t + 1)
             xs = [["A", "AC", "DDDDDD", "DDDDDE", "CCCCCCCCCCCC"], ["ACDA", "ACDC", "DDDDDDDDD", "", "DDDDDDDCC"]][it_h - 4]
